@@ -188,6 +188,13 @@ class ScriptedSelector(selectors.BaseSelector):
             env.log_call({"ev": "wait", "w": -1, "e": int(elapsed), "ready": True, "event": key.events})
             env.progress() if elapsed > 0 else None
             return [(key, key.events)]
+        if step[0] == "late":
+            # the selector comes back late (poll rounding, the thread was not scheduled): more time passed than was asked for
+            elapsed = timeout + float(step[1])
+            env.clock.now += elapsed
+            env.progress()
+            env.log_call({"ev": "wait", "w": timeout, "e": elapsed, "ready": True, "event": key.events})
+            return [(key, key.events)]
         if step[0] == "ready":
             elapsed = min(float(step[1]), timeout)
             env.clock.now += elapsed
